@@ -22,6 +22,14 @@ spec->code: TLC prints every history (<= MaxDepth operations) with the exact
             with the Python int.  Sums (+, sum()) of NormalisedCounts / CorrFunc
             with another measurement on the same bins and patches (variants
             "sw", "othersw": other sums of weights) must be rejected.
+            In-place accumulation (IAdd: x = a; x += b, Accumulate: t = 0; t += a;
+            t += b) yields the sum and leaves BOTH operands unchanged.  The one
+            mutator, PatchedCounts.set_patch_pair (SetPatchPair, also through
+            nc.counts / cf.<member>.counts), replaces its operand by the updated
+            value; a staged run (observe -> edit -> observe again: PatchSum /
+            Sample / GetArray, then SetPatchPair, then PatchSum / Sample /
+            GetArray / == with a freshly built equal container / Bins) makes
+            sure that nothing remembered from before the edit is reported after it.
 deviations: the code as found (A1 MulCountAttr, A2 FancyPatchIndex, A3
             AddPassesClosed, AddDropsMembers, SwNdimChain, NumpyIndexOnCounts;
             hypothetical: AddIgnoresWeights): TLC must produce a counterexample
@@ -40,8 +48,14 @@ from harness import tlc
 
 S = C.scenario
 
-C17_OPS = ["Add", "Sub", "AddVar", "SubVar", "RAdd", "Mul", "Eq", "EqVar", "IsCompat", "IsCompatVar", "Bins", "Patches",
+C17_OPS = ["Add", "Sub", "AddVar", "SubVar", "IAdd", "IAddVar", "Accumulate", "SetPatchPair", "RAdd", "Mul", "Eq", "EqVar", "IsCompat", "IsCompatVar", "Bins", "Patches",
            "IterBins", "IterPatches", "PatchSum", "Sample", "GetArray", "Construct"]
+# observe -> edit a patch pair in place -> observe again (depth 3, a run of its own in the quick tier)
+MUT_STAGES = [["PatchSum", "Sample", "GetArray"], ["SetPatchPair"], ["PatchSum", "Sample", "GetArray", "EqVar", "Bins"]]
+MUT_OPS = sorted({op for st in MUT_STAGES for op in st})
+REQUIRED_AROUND_MUTATION = [(a, "SetPatchPair", b) for a in ("PatchSum", "Sample", "GetArray")
+                            for b in ("PatchSum", "Sample", "GetArray", "EqVar:fresh", "Bins")
+                            if not (a == "Sample" and b == "PatchSum") and not (a == "PatchSum" and b == "Sample")]
 REQUIRED_PAIRS = [("GetArray", "Sample"), ("GetArray", "PatchSum"), ("GetArray", "Eq"), ("Sample", "Eq"), ("Sample", "EqVar"),
                   ("PatchSum", "Eq"), ("Sample", "Bins"), ("Bins", "Sample"), ("Bins", "GetArray"), ("Patches", "GetArray"),
                   ("Sample", "Bins:npint"), ("PatchSum", "Bins:npint")]
@@ -53,7 +67,12 @@ REQUIRED_CLASSES = [(c, "bins", "npint", "val") for c in ("PatchedCounts", "Patc
                    [(c, "patches", "npint", "val") for c in ("PatchedCounts", "PatchedSumWeights", "NormalisedCounts", "CorrFunc")] + \
                    [(c, "add", v, "rej") for c in ("NormalisedCounts", "CorrFunc") for v in ("sw", "othersw")] + \
                    [("NormalisedCounts", "radd", "sum_othersw", "rej"), ("NormalisedCounts", "radd", "sum_compatible", "val"),
-                    ("PatchedCounts", "radd", "sum_compatible", "val")]
+                    ("PatchedCounts", "radd", "sum_compatible", "val")] + \
+                   [(c, "iadd", "compatible", "val") for c in ("PatchedCounts", "NormalisedCounts", "CorrFunc", "CorrData")] + \
+                   [(c, "iadd", "othersw", "rej") for c in ("NormalisedCounts", "CorrFunc")] + \
+                   [(c, "accumulate", "compatible", "val") for c in ("PatchedCounts", "NormalisedCounts")] + \
+                   [("PatchedCounts", "set_patch_pair", "direct", "mut"), ("NormalisedCounts", "set_patch_pair", "counts", "mut"),
+                    ("CorrFunc", "set_patch_pair", "member.counts", "mut")]
 
 
 def base_scenarios():
@@ -76,6 +95,12 @@ def deep_scenarios():
             S("CF", 2, 2, mem=("dr", "rr"), seed=1), S("CD", 2, 2, seed=1),
             # sampled containers holding NaN: an empty bin (value and samples), a single patch (jackknife samples)
             S("CF", 2, 2, mem=("dr",), seed=1, zero=2), S("CD", 2, 2, seed=2, zero=2), S("NC", 2, 1, seed=1)]
+
+
+def mutation_scenarios():
+    return [S("PC", 2, 2, seed=1), S("PC", 1, 3, auto=True, seed=2), S("NC", 1, 2, auto=True, seed=2), S("NC", 2, 3, seed=1),
+            S("CF", 1, 2, mem=("dr",), seed=1), S("CF", 2, 2, auto=True, mem=("dr", "rr"), seed=2),
+            S("CF", 2, 3, mem=("dr", "rd", "rr"), seed=3)]
 
 
 def extra_scenarios(rng, n):
@@ -138,44 +163,54 @@ def run(ctx) -> None:
     if not quick:
         base = base + extra_scenarios(rng, 14)
 
+    # the TLC runs are started together; the histories (emit ...) are replayed on the real code while the law
+    # checking runs (laws ...) are still busy
     jobs = {}
-    with ThreadPoolExecutor(max_workers=3 if quick else 4) as pool:
-        # A. the laws of the property on the ideal design
-        jobs["laws d1"] = pool.submit(C.run_model, base, C17_OPS, 1, invariants=C.LAWS_C17, workers=6)
-        jobs["laws d2"] = pool.submit(C.run_model, deep if quick else base[:nbase], C17_OPS, 2, invariants=C.LAWS_C17,
-                                      selset="small" if quick else "full", workers=6)
-        # B. histories for the replay
-        jobs["emit d1"] = pool.submit(C.run_model, base, C17_OPS, 1, invariants=["TypeOK", "AcceptIffValid"], emit=True, workers=4)
-        jobs["emit d2"] = pool.submit(C.run_model, deep, C17_OPS, 2, invariants=["TypeOK", "AcceptIffValid"], emit=True,
-                                      selset="small" if quick else "full", workers=6)
-        jobs["cover"] = pool.submit(C.run_model, deep, C17_OPS, 1, invariants=["TypeOK"], coverage=True, workers=2)
-        for dev, (sc, ops, invs) in DEV_RUNS.items():
-            jobs["dev " + dev] = pool.submit(C.run_model, [sc], ops, 1, invariants=invs, dev=[dev], workers=1)
-            jobs["ideal " + dev] = pool.submit(C.run_model, [sc], ops, 1, invariants=["TypeOK"], emit=True, workers=1)
-        if not quick:
-            jobs["emit d3"] = pool.submit(C.run_model, deep, C17_OPS, 3, invariants=["TypeOK", "AcceptIffValid"], emit=True,
-                                          selset="small", workers=6)
-            jobs["emit d2 all"] = pool.submit(C.run_model, base[:nbase], C17_OPS, 2, invariants=["TypeOK", "AcceptIffValid"], emit=True,
-                                              selset="full", workers=6)
-            jobs["laws d3"] = pool.submit(C.run_model, deep[:3], C17_OPS, 3, invariants=C.LAWS_C17, selset="small", workers=6)
-        results = {k: f.result() for k, f in jobs.items()}
+    pool = ThreadPoolExecutor(max_workers=3 if quick else 4)
+    # B. histories for the replay
+    jobs["emit d2"] = pool.submit(C.run_model, deep, C17_OPS, 2, invariants=["TypeOK", "AcceptIffValid"], emit=True,
+                                  selset="small" if quick else "full", workers=6)
+    jobs["emit d1"] = pool.submit(C.run_model, base, C17_OPS, 1, invariants=["TypeOK", "AcceptIffValid"], emit=True, workers=4)
+    jobs["emit mut"] = pool.submit(C.run_model, mutation_scenarios(), MUT_OPS, 3, invariants=["TypeOK", "AcceptIffValid"],
+                                   emit=True, selset="small", workers=2, stages=MUT_STAGES)
+    # A. the laws of the property on the ideal design
+    jobs["laws d2"] = pool.submit(C.run_model, deep if quick else base[:nbase], C17_OPS, 2, invariants=C.LAWS_C17,
+                                  selset="small" if quick else "full", workers=6)
+    jobs["laws d1"] = pool.submit(C.run_model, base, C17_OPS, 1, invariants=C.LAWS_C17, workers=6)
+    jobs["cover"] = pool.submit(C.run_model, deep, C17_OPS, 1, invariants=["TypeOK"], coverage=True, workers=2)
+    for dev, (sc, ops, invs) in DEV_RUNS.items():
+        jobs["dev " + dev] = pool.submit(C.run_model, [sc], ops, 1, invariants=invs, dev=[dev], workers=1)
+        jobs["ideal " + dev] = pool.submit(C.run_model, [sc], ops, 1, invariants=["TypeOK"], emit=True, workers=1)
+    if not quick:
+        jobs["emit d3"] = pool.submit(C.run_model, deep, C17_OPS, 3, invariants=["TypeOK", "AcceptIffValid"], emit=True,
+                                      selset="small", workers=6)
+        jobs["emit d2 all"] = pool.submit(C.run_model, base[:nbase], C17_OPS, 2, invariants=["TypeOK", "AcceptIffValid"], emit=True,
+                                          selset="full", workers=6)
+        jobs["laws d3"] = pool.submit(C.run_model, deep[:3], C17_OPS, 3, invariants=C.LAWS_C17, selset="small", workers=6)
+        jobs["laws mut"] = pool.submit(C.run_model, mutation_scenarios(), MUT_OPS, 3, invariants=C.LAWS_C17, selset="small", workers=2,
+                                       stages=MUT_STAGES)
 
-    for label in [k for k in results if k.startswith("laws")]:
-        res = results[label]
-        ctx.add_tlc(f"Containers ideal, {label}: all laws of C17", res)
-        ctx.require(res.ok, f"Containers ideal design violates {res.error_name} ({label})")
-    cov = results["cover"]
-    ctx.add_tlc("Containers ideal, action coverage", cov)
-    for op in C17_OPS:
-        taken = max(cov.coverage.get("Some" + op, (0, 0))[1], cov.coverage.get(op, (0, 0))[1])
-        ctx.require(taken > 0, f"Containers action {op} never taken (vacuous)")
+    class _Results(dict):
+        def __missing__(self, key):
+            self[key] = jobs[key].result()
+            return self[key]
+
+    results = _Results()
+    try:
+        _evaluate(ctx, world, rng, quick, jobs, results)
+    finally:
+        pool.shutdown(wait=True, cancel_futures=True)
+
+
+def _evaluate(ctx, world, rng, quick, jobs, results) -> None:
 
     # B. replay
     total_ops = {}
     total_pairs: dict = {}
     total_classes: dict = {}
+    around_mutation: dict = {}
     eq_on_undefined = 0
-    for label in [k for k in results if k.startswith("emit")]:
+    for label in [k for k in jobs if k.startswith("emit")]:
         res = results[label]
         ctx.add_tlc(f"Containers ideal, {label}: histories for replay", res)
         ctx.require(res.ok, f"Containers ideal design violates {res.error_name} ({label})")
@@ -189,6 +224,8 @@ def run(ctx) -> None:
             total_pairs[k] = total_pairs.get(k, 0) + n
         for k, n in rp.classes_seen.items():
             total_classes[k] = total_classes.get(k, 0) + n
+        for k, n in rp.around_mutation.items():
+            around_mutation[k] = around_mutation.get(k, 0) + n
         eq_on_undefined += rp.eq_on_undefined
         ctx.extra.setdefault("replay", {})[label] = dict(scenarios=len(inits), steps=len(steps), executed=rp.replayed,
                                                           histories=rp.histories, continued_with_model_object=rp.repaired,
@@ -203,6 +240,9 @@ def run(ctx) -> None:
     ctx.extra["operations_replayed"] = total_ops
     for pair in REQUIRED_PAIRS:
         ctx.require(total_pairs.get(pair, 0) > 0, f"no history with {pair[0]} followed by {pair[1]} was replayed on the real code")
+    for tr in REQUIRED_AROUND_MUTATION:
+        ctx.require(around_mutation.get(tr, 0) > 0, f"no replayed history {tr[0]} -> SetPatchPair -> {tr[2]}")
+    ctx.extra["observations_around_set_patch_pair"] = {"->".join(k): n for k, n in sorted(around_mutation.items())}
     for ck in REQUIRED_CLASSES:
         ctx.require(total_classes.get(ck, 0) > 0, f"no replayed step of class {ck}")
     ctx.extra["numpy_integer_selections_replayed"] = sum(n for k, n in total_classes.items() if k[2].startswith("npint"))
@@ -210,6 +250,16 @@ def run(ctx) -> None:
     ctx.require(eq_on_undefined >= 20, f"== with a prescribed result was executed on only {eq_on_undefined} real containers holding NaN")
     ctx.extra["eq_executed_on_containers_holding_nan"] = eq_on_undefined
     ctx.extra["compositions_replayed"] = {f"{a}->{b}": n for (a, b), n in sorted(total_pairs.items())}
+
+    for label in [k for k in jobs if k.startswith("laws")]:
+        res = results[label]
+        ctx.add_tlc(f"Containers ideal, {label}: all laws of C17", res)
+        ctx.require(res.ok, f"Containers ideal design violates {res.error_name} ({label})")
+    cov = results["cover"]
+    ctx.add_tlc("Containers ideal, action coverage", cov)
+    for op in C17_OPS:
+        taken = max(cov.coverage.get("Some" + op, (0, 0))[1], cov.coverage.get(op, (0, 0))[1])
+        ctx.require(taken > 0, f"Containers action {op} never taken (vacuous)")
 
     # C. deviations: TLC must exhibit each one; the counterexample is replayed on the real code
     dev_report = {}
